@@ -1,7 +1,264 @@
 (** C08 — combination enumeration is a bijection between IDs and sorted k-subsets.
-    This file holds only the property theorems, each closed by [exact]. *)
+    This file holds only the property theorems, each closed by [exact].
+
+    Vocabulary (defined in Proofs/Comb.v, model in Model/Comb.v):
+    - [Valid m s]      : [s] strictly increasing with every element in [0..m]
+                         (see [C08_Valid_iff] for the textbook reading);
+    - [lex s t]        : strict lexicographic order on tuples of equal length;
+    - [first_comb k]   = [0; 1; ..; k-1],  [last_comb m k] = [m-k+1; ..; m];
+    - [binom n k]      : Pascal's rule, the recurrence that fills the lookup table;
+    - [rank m s]       : the ID formula of getCombinationID in Z (no wrap),
+      [rank64], [amount64], [binom64] : what the Go code computes in uint64;
+    - [nth_comb m i s] : [Some] of the state after [i] successful [next]s from [s],
+                         [None] if [next] reported exhaustion on the way.
+    [m + 1 < 2^63] says that maxValue+1 is still an int64 (Go's Value type). *)
 From CSS Require Import Lib.Base Model.Comb Proofs.Comb.
+From Coq Require Import Sorting.Sorted.
+
+(** * Vocabulary *)
+
+Theorem C08_Valid_iff : forall m s,
+  Valid m s <-> StronglySorted Z.lt s /\ Forall (fun x => 0 <= x <= m) s.
+Proof. exact Valid_iff. Qed.
+Print Assumptions C08_Valid_iff.
+
+Theorem C08_lex_strict_total :
+  (forall s, ~ lex s s) /\
+  (forall s t u, lex s t -> lex t u -> lex s u) /\
+  (forall s t, length s = length t -> lex s t \/ s = t \/ lex t s).
+Proof. exact (conj lex_irrefl (conj lex_trans lex_total)). Qed.
+Print Assumptions C08_lex_strict_total.
+
+(** * 1. Binomial coefficients: the executable formula is Pascal's rule; uint64 = mod 2^64 *)
+
+Theorem C08_binom_fast : forall (n k : nat), binom_fast (Z.of_nat n) k = binom n k.
+Proof. exact (fun n k => binom_fast_eq k n). Qed.
+Print Assumptions C08_binom_fast.
+
+Theorem C08_binom64 : forall n k, 0 <= n < 2 ^ 63 -> 0 <= k ->
+  binom64 n k = binom (Z.to_nat n) (Z.to_nat k) mod 2 ^ 64.
+Proof. exact binom64_mod. Qed.
+Print Assumptions C08_binom64.
+
+(** * 2. next *)
 
 Theorem C08_next_empty : forall m, next m [] = (false, []).
 Proof. exact next_empty. Qed.
 Print Assumptions C08_next_empty.
+
+(** On a valid tuple other than the last one [next] succeeds. *)
+Theorem C08_next_progress : forall m s, Valid m s -> s <> last_comb m (length s) ->
+  exists s', next m s = (true, s') /\ Valid m s' /\ length s' = length s /\
+             rank m s' = rank m s + 1.
+Proof. exact next_step. Qed.
+Print Assumptions C08_next_progress.
+
+(** ... and what it yields is the lexicographic successor among valid tuples. *)
+Theorem C08_next_succ : forall m s s', Valid m s -> next m s = (true, s') ->
+  Valid m s' /\ length s' = length s /\ lex s s' /\
+  forall t, Valid m t -> length t = length s -> ~ (lex s t /\ lex t s').
+Proof. exact next_succ. Qed.
+Print Assumptions C08_next_succ.
+
+(** Exhaustion exactly on the last tuple [m-k+1..m] (for k = 0 that is []). *)
+Theorem C08_next_last : forall m k,
+  next m (last_comb m k) = (false, seqZ (m - Z.of_nat k + 2) k).
+Proof. exact next_last. Qed.
+Print Assumptions C08_next_last.
+
+Theorem C08_next_exhausted_iff : forall m s, Valid m s ->
+  (fst (next m s) = false <-> s = last_comb m (length s)).
+Proof. exact next_exhausted_iff. Qed.
+Print Assumptions C08_next_exhausted_iff.
+
+(** * 3. rank is a bijection from valid k-tuples onto [0, C(m+1,k)) *)
+
+Theorem C08_rank_first : forall m k, rank m (first_comb k) = 0.
+Proof. exact rank_first. Qed.
+Print Assumptions C08_rank_first.
+
+Theorem C08_rank_next : forall m s s', Valid m s -> next m s = (true, s') ->
+  Valid m s' /\ length s' = length s /\ rank m s' = rank m s + 1 /\
+  s <> last_comb m (length s).
+Proof. exact next_true. Qed.
+Print Assumptions C08_rank_next.
+
+Theorem C08_rank_last : forall m k,
+  rank m (last_comb m k) = binom (Z.to_nat (m + 1)) k - 1.
+Proof. exact rank_last. Qed.
+Print Assumptions C08_rank_last.
+
+Theorem C08_rank_range : forall m s, Valid m s ->
+  0 <= rank m s < binom (Z.to_nat (m + 1)) (length s).
+Proof. exact rank_bounds. Qed.
+Print Assumptions C08_rank_range.
+
+Theorem C08_rank_inj : forall m s t,
+  Valid m s -> Valid m t -> length s = length t -> rank m s = rank m t -> s = t.
+Proof. exact rank_inj. Qed.
+Print Assumptions C08_rank_inj.
+
+Theorem C08_rank_surj : forall m k id,
+  Z.of_nat k <= m + 1 -> 0 <= id < binom (Z.to_nat (m + 1)) k ->
+  exists s, Valid m s /\ length s = k /\ rank m s = id.
+Proof. exact rank_surj. Qed.
+Print Assumptions C08_rank_surj.
+
+(** rank is strictly monotone for the lexicographic order. *)
+Theorem C08_rank_lex : forall m s t, Valid m s -> Valid m t -> length s = length t ->
+  (lex s t <-> rank m s < rank m t).
+Proof. exact rank_lex_iff. Qed.
+Print Assumptions C08_rank_lex.
+
+(** The i-th combination visited from [first_comb k] exists exactly for
+    i < C(m+1,k), is valid and has ID i. *)
+Theorem C08_rank_enum : forall m k i, Z.of_nat k <= m + 1 ->
+  (Z.of_nat i < binom (Z.to_nat (m + 1)) k ->
+     exists s, nth_comb m i (first_comb k) = Some s /\ Valid m s /\ length s = k /\
+               rank m s = Z.of_nat i) /\
+  (binom (Z.to_nat (m + 1)) k <= Z.of_nat i -> nth_comb m i (first_comb k) = None).
+Proof. exact rank_enum. Qed.
+Print Assumptions C08_rank_enum.
+
+(** The model's [walk] (the function the correspondence check compares with the
+    Go iterator): C(m+1,k) states visited, exhaustion reported, every uint64 ID
+    equal to the visit index. *)
+Theorem C08_walk : forall m k fuel h, Z.of_nat k <= m + 1 -> m + 1 < 2 ^ 63 ->
+  binom (Z.to_nat (m + 1)) k < 2 ^ 64 -> binom (Z.to_nat (m + 1)) k <= Z.of_nat fuel ->
+  exists h', walk fuel m (first_comb k) 0 h true
+             = (h', binom (Z.to_nat (m + 1)) k, true, true).
+Proof. exact walk_first. Qed.
+Print Assumptions C08_walk.
+
+(** * 4. uint64 arithmetic is exact modulo 2^64 *)
+
+Theorem C08_rank64_mod : forall m s, Valid m s -> m + 1 < 2 ^ 63 ->
+  rank64 m s = rank m s mod 2 ^ 64.
+Proof. exact rank64_mod. Qed.
+Print Assumptions C08_rank64_mod.
+
+Theorem C08_rank64_exact : forall m s, Valid m s -> m + 1 < 2 ^ 63 ->
+  binom (Z.to_nat (m + 1)) (length s) < 2 ^ 64 -> rank64 m s = rank m s.
+Proof. exact rank64_exact. Qed.
+Print Assumptions C08_rank64_exact.
+
+Theorem C08_amount64_mod : forall m k, 0 <= m + 1 < 2 ^ 63 ->
+  amount64 m k = binom (Z.to_nat (m + 1)) k mod 2 ^ 64.
+Proof. exact amount64_mod. Qed.
+Print Assumptions C08_amount64_mod.
+
+Theorem C08_amount : forall m k, 0 <= m + 1 < 2 ^ 63 ->
+  binom (Z.to_nat (m + 1)) k < 2 ^ 64 -> amount64 m k = binom (Z.to_nat (m + 1)) k.
+Proof. exact amount64_exact. Qed.
+Print Assumptions C08_amount.
+
+(** The two range hypotheses cannot be dropped (representability, not defects). *)
+Theorem C08_amount_overflow_refuted : exists m k, 0 <= m + 1 < 2 ^ 63 /\
+  2 ^ 64 <= binom (Z.to_nat (m + 1)) k /\ amount64 m k <> binom (Z.to_nat (m + 1)) k.
+Proof. exact amount_overflow_refuted. Qed.
+Print Assumptions C08_amount_overflow_refuted.
+
+Theorem C08_rank64_maxint64_refuted : exists m s,
+  Valid m s /\ m + 1 = 2 ^ 63 /\ rank64 m s <> rank m s mod 2 ^ 64.
+Proof. exact rank64_maxint64_refuted. Qed.
+Print Assumptions C08_rank64_maxint64_refuted.
+
+(** * 5. seek (SetCombinationID): total and exact on the documented domain *)
+
+(** Never [Panic], never [OutOfFuel]: the N-section search terminates within
+    [seek_fuel m k] iterations and lands on the tuple of rank [id]. *)
+Theorem C08_seek : forall m k id,
+  (1 <= k)%nat -> Z.of_nat k <= m + 1 -> m + 1 < 2 ^ 63 ->
+  binom (Z.to_nat (m + 1)) k < 2 ^ 64 -> 0 <= id < binom (Z.to_nat (m + 1)) k ->
+  exists s, seek m k id = Ok s /\ Valid m s /\ length s = k /\ rank m s = id.
+Proof. exact seek_ok. Qed.
+Print Assumptions C08_seek.
+
+Theorem C08_seek_empty : forall m id, seek m 0 id = Ok [].
+Proof. exact seek_0. Qed.
+Print Assumptions C08_seek_empty.
+
+(** Unconditional soundness: whatever [seek] returns reports the requested ID. *)
+Theorem C08_seek_sound : forall m k id r,
+  (1 <= k)%nat -> seek m k id = Ok r -> rank64 m r = id.
+Proof. exact seek_sound. Qed.
+Print Assumptions C08_seek_sound.
+
+(** [id >= amount] is outside the contract ("may hang or panic" in the Go doc). *)
+Theorem C08_seek_oob_refuted : exists m k id,
+  (1 <= k)%nat /\ Z.of_nat k <= m + 1 /\ id = binom (Z.to_nat (m + 1)) k /\
+  seek m k id = Panic.
+Proof. exact seek_oob_refuted. Qed.
+Print Assumptions C08_seek_oob_refuted.
+
+(** * 6. Applying a combination *)
+
+Theorem C08_flip_valid : forall m s n, Valid m s -> m < n ->
+  NoDup s /\ Forall (fun i => 0 <= i < n) s.
+Proof. exact Valid_flip_hyps. Qed.
+Print Assumptions C08_flip_valid.
+
+Theorem C08_flip_bools_exact : forall s v,
+  NoDup s -> Forall (fun i => 0 <= i < Z.of_nat (length v)) s ->
+  exists v', flip_bools s v = Ok v' /\ length v' = length v /\
+    forall j, (j < length v)%nat ->
+      nth j v' false = if in_dec Z.eq_dec (Z.of_nat j) s then negb (nth j v false)
+                       else nth j v false.
+Proof. exact flip_bools_spec. Qed.
+Print Assumptions C08_flip_bools_exact.
+
+Theorem C08_flip_bools_involutive : forall s v v',
+  NoDup s -> Forall (fun i => 0 <= i < Z.of_nat (length v)) s ->
+  flip_bools s v = Ok v' -> flip_bools s v' = Ok v.
+Proof. exact flip_bools_invol. Qed.
+Print Assumptions C08_flip_bools_involutive.
+
+(** Bit [b] of byte [j] is flipped iff index [8j+b] is in the combination
+    ([memZ x s] is the boolean [In x s]); bits 8 and above are untouched and
+    bytes stay bytes. *)
+Theorem C08_flip_bytes_exact : forall s v,
+  NoDup s -> Forall (fun i => 0 <= i < 8 * Z.of_nat (length v)) s ->
+  exists v', flip_bytes s v = Ok v' /\ length v' = length v /\
+    (Forall (fun x => 0 <= x < 256) v -> Forall (fun x => 0 <= x < 256) v') /\
+    forall j b, (j < length v)%nat -> 0 <= b ->
+      Z.testbit (nth j v' 0) b
+      = xorb (Z.testbit (nth j v 0) b) ((b <? 8) && memZ (8 * Z.of_nat j + b) s).
+Proof. exact flip_bytes_spec. Qed.
+Print Assumptions C08_flip_bytes_exact.
+
+Theorem C08_memZ_In : forall x s, memZ x s = true <-> In x s.
+Proof. exact memZ_In. Qed.
+Print Assumptions C08_memZ_In.
+
+Theorem C08_flip_bytes_involutive : forall s v v',
+  NoDup s -> Forall (fun i => 0 <= i < 8 * Z.of_nat (length v)) s ->
+  flip_bytes s v = Ok v' -> flip_bytes s v' = Ok v.
+Proof. exact flip_bytes_invol. Qed.
+Print Assumptions C08_flip_bytes_involutive.
+
+(** * Examples: the hypotheses above are satisfiable by non-trivial values *)
+
+Example C08_ex_valid : Valid 4 [0; 2; 4] /\ [0; 2; 4] <> last_comb 4 3.
+Proof. exact ex_valid. Qed.
+Example C08_ex_next :
+  next 4 [0; 2; 4] = (true, [0; 3; 4]) /\ rank 4 [0; 2; 4] = 4 /\ rank 4 [0; 3; 4] = 5.
+Proof. exact ex_next. Qed.
+Example C08_ex_next_last :
+  Valid 4 (last_comb 4 3) /\ next 4 [2; 3; 4] = (false, [3; 4; 5]).
+Proof. exact ex_next_last. Qed.
+Example C08_ex_seek :
+  seek 4 3 5 = Ok [0; 3; 4] /\ 0 <= 5 < binom (Z.to_nat (4 + 1)) 3 /\
+  binom (Z.to_nat (4 + 1)) 3 < 2 ^ 64.
+Proof. exact ex_seek. Qed.
+(** beyond the 1000x10 lookup table, still below 2^64 *)
+Example C08_ex_big : 4000 + 1 < 2 ^ 63 /\ binom (Z.to_nat (4000 + 1)) 5 < 2 ^ 64 /\
+  Valid 4000 [5; 17; 1000; 1001; 4000].
+Proof. exact ex_big_bound. Qed.
+Example C08_ex_flip_bools :
+  NoDup [0; 2] /\ Forall (fun i => 0 <= i < Z.of_nat (length [true; true; false])) [0; 2] /\
+  flip_bools [0; 2] [true; true; false] = Ok [false; true; true].
+Proof. exact ex_flip_bools. Qed.
+Example C08_ex_flip_bytes :
+  NoDup [1; 9; 15] /\ Forall (fun i => 0 <= i < 8 * Z.of_nat (length [0; 255])) [1; 9; 15] /\
+  flip_bytes [1; 9; 15] [0; 255] = Ok [2; 125].
+Proof. exact ex_flip_bytes. Qed.
